@@ -480,7 +480,7 @@ func ParentMain(p Prop, tier string, extraArgs []string) int {
 		} else {
 			logp := filepath.Join(root, "replays", fmt.Sprintf("%s-workerc%d-crash.log", p.ID(), ci))
 			r := CaseResult{Case: fmt.Sprintf("case-%d", ci), Idx: ci, Hash: fmt.Sprintf("crash-%d", ci)}
-			r.Violate("crash-or-hang", "worker process died or exceeded the watchdog twice on this case; log: "+logp, "", map[string]any{"case": ci, "seed": seed, "tier": tier})
+			r.Violate("crash-or-hang", "worker process died or exceeded the watchdog twice on this case; log: "+logp, "", map[string]any{"case": ci, "idx": ci, "seed": seed, "tier": tier})
 			all = append(all, r)
 		}
 	}
